@@ -143,6 +143,7 @@ fn strat(tier: Tier) -> BoxedStrategy<Case> {
         16 => seq_case_k(tier.pick(100, 300), true, 3, true).prop_map(Case::Seq),
         4 => text_case_mix(tier.pick(120, 160)).prop_map(Case::Text),
         1 => big_line_case(tier.pick(130, 300)).prop_map(Case::Text),
+        1 => distinct_line_case(tier.pick(300, 600)).prop_map(Case::Text),
     ]
     .boxed()
 }
